@@ -5,6 +5,7 @@ import (
 	"fmt"
 	"os"
 	"strings"
+	"sync/atomic"
 	"testing"
 	"time"
 
@@ -452,6 +453,9 @@ func genC01(t *rapid.T) C01Case {
 	return c
 }
 
+// c01HangConfirmed counts hangs confirmed with the 120 s deadline in this process.
+var c01HangConfirmed int32
+
 func checkC01(c C01Case, env *Env) *Violation {
 	req := &proto.Request{Cmd: "session", Files: c.Files, InitOptions: c.InitOptions, Steps: c.Steps, CallTimeoutMs: 20000}
 	t0 := time.Now()
@@ -460,8 +464,20 @@ func checkC01(c C01Case, env *Env) *Violation {
 		b, _ := json.Marshal(ReplayFile{Property: "C01", Message: fmt.Sprintf("slow: %v", d), Case: harness.J(c)})
 		os.WriteFile(fmt.Sprintf("%s/slow-%d.json", os.Getenv("VERIF_SLOWDIR"), time.Now().UnixNano()), b, 0o644)
 	}
-	if o.Crash() && strings.Contains(o.Stderr, "stack overflow") || (o.Resp != nil && o.Resp.Hung) || o.TimedOut {
+	hung := (o.Resp != nil && o.Resp.Hung) || o.TimedOut
+	if hung && atomic.LoadInt32(&c01HangConfirmed) > 0 {
+		// a hang was already confirmed with the generous deadline in this run; while the failing case
+		// is being shrunk, the 20 s deadline alone decides (the driver re-decides the final saved case
+		// from scratch with the 120 s deadline before reporting it)
+		return violf("crash", "the server process died or a request was never answered: %s\n%s", o.Describe(), c01Show(&c))
+	}
+	if o.Crash() && strings.Contains(o.Stderr, "stack overflow") || hung {
 		// re-confirm under the default stack limit / alone with a generous deadline before reporting
+		defer func() {
+			if hung && o.Crash() {
+				atomic.AddInt32(&c01HangConfirmed, 1)
+			}
+		}()
 		req2 := *req
 		req2.CallTimeoutMs = 120000
 		o = pool.ExecFresh(&req2, "LHEXEC_MAXSTACK_MB=1000")
